@@ -55,3 +55,60 @@ def convert_sense():
     return Unit('qplib::convert::convert_sense', F, 'convert_sense', impl=None, anyhow=False, sig='fn convert_sense(sense: ObjSense) -> i32',
                 header='''pub fn convert_sense(sense: ObjSense) -> (r: i32)
     ensures r == (if sense == ObjSense::Minimize { 1i32 } else { 2i32 }),''')
+
+
+def to_linear():
+    return Unit('qplib::convert::to_linear', F, 'to_linear', impl=None, anyhow=False,
+                sig='fn to_linear(coeffs: &HashMap<usize, f64>) -> v1::Linear',
+                header='''pub fn to_linear(coeffs: &HashMap<usize, F64>) -> (r: v1::Linear)
+    ensures
+        // one term per listed entry (i, v) of b (in SOME order, each exactly once), constant 0
+        r.constant@ == XR::Fin(0real),
+        exists|e: Seq<(usize, F64)>| #![trigger lp_enum(coeffs@, e)] lp_enum(coeffs@, e) && e.len() == r.terms.len()
+            && forall|k: int| 0 <= k < e.len() ==> (#[trigger] r.terms[k]).id == e[k].0 as u64 && r.terms[k].coefficient == e[k].1,''',
+                rsubs=[(r'(?s)coeffs\.iter\(\)\.map\((.*)\)\.collect\(\);', r'vec_map_collect(hashmap_iter_collect(coeffs), \1);', 1)],
+                closures=[dict(params='(id, coeff)', typed='p: (&usize, &F64)', ret='v1::linear::Term', bind='let id = p.0; let coeff = p.1;',
+                               ensures='ret.id == *p.0 as u64 && ret.coefficient == *p.1')],
+                proofs=[(('before', r'v1::Linear \{'), '''proof {
+        let e = Seq::new(terms.len() as nat, |j: int| (terms[j].id as usize, terms[j].coefficient));
+        assert(exists|h: Seq<(&usize, &F64)>| #![trigger h.len()] h.len() == terms.len() && lp_enum_ref(coeffs@, h) && forall|k: int| 0 <= k < h.len() ==> (#[trigger] terms[k]).id == *h[k].0 as u64 && terms[k].coefficient == *h[k].1);
+        let h = choose|h: Seq<(&usize, &F64)>| #![trigger h.len()] h.len() == terms.len() && lp_enum_ref(coeffs@, h) && forall|k: int| 0 <= k < h.len() ==> (#[trigger] terms[k]).id == *h[k].0 as u64 && terms[k].coefficient == *h[k].1;
+        let e2 = Seq::new(h.len(), |j: int| (*h[j].0, *h[j].1));
+        assert forall|j: int| 0 <= j < e2.len() implies coeffs@.contains_key((#[trigger] e2[j]).0) && coeffs@[e2[j].0] == e2[j].1 by { assert(e2[j] == (*h[j].0, *h[j].1)); }
+        assert forall|k: usize| coeffs@.contains_key(k) implies exists|j: int| 0 <= j < e2.len() && (#[trigger] e2[j]).0 == k by {
+            let j = choose|j: int| 0 <= j < h.len() && *(#[trigger] h[j]).0 == k; assert(e2[j].0 == k); }
+        assert forall|i: int, j: int| 0 <= i < j < e2.len() implies (#[trigger] e2[i]).0 != (#[trigger] e2[j]).0 by { assert(*h[i].0 != *h[j].0); }
+        assert(lp_enum(coeffs@, e2));
+        assert forall|k: int| 0 <= k < e2.len() implies (#[trigger] terms[k]).id == e2[k].0 as u64 && terms[k].coefficient == e2[k].1 by { assert(e2[k] == (*h[k].0, *h[k].1)); }
+    }
+    ''')])
+
+
+def convert_dvars():
+    return Unit('qplib::convert::convert_dvars', F, 'convert_dvars', impl=None, anyhow=False,
+                sig='fn convert_dvars(qplib: &QplibFile) -> Vec<v1::DecisionVariable>',
+                header='''pub fn convert_dvars(qplib: &QplibFile) -> (r: Vec<v1::DecisionVariable>)
+    ensures
+        // one decision variable per declared variable, in file order: id = position, the declared kind, the file's bounds (as they are after the
+        // infinity threshold was applied), the file's name if it has one; nothing else is set
+        r.len() == min3(qplib.var_types.len() as int, qplib.lower_bounds.len() as int, qplib.upper_bounds.len() as int),
+        forall|i: int| 0 <= i < r.len() ==> (#[trigger] r[i]).id == i as u64
+            && r[i].kind == (match qplib.var_types[i] { VarType::Continuous => 3i32, VarType::Integer => 2i32, VarType::Binary => 1i32 })
+            && r[i].bound is Some && r[i].bound->Some_0.lower == qplib.lower_bounds[i] && r[i].bound->Some_0.upper == qplib.upper_bounds[i]
+            && r[i].name == (if qplib.var_names@.contains_key(i as usize) { Some(qplib.var_names@[i as usize]) } else { None::<String> })
+            && r[i].substituted_value is None && r[i].subscripts.len() == 0 && r[i].description is None,''',
+                rsubs=[(r'izip!\(var_types, lower_bounds, upper_bounds\)\.enumerate\(\)', 'enumerate_vec(zip3(var_types, lower_bounds, upper_bounds))', 1),
+                       (r'var_names\.get\(&i\)\.cloned\(\)', 'opt_cloned(var_names.get(&i))', 1),
+                       (r'let mut dvars = Vec::with_capacity\(var_types\.len\(\)\);', 'let mut dvars: Vec<v1::DecisionVariable> = Vec::new();', 1),
+                       (r'\.\.Default::default\(\)', 'parameters: HashMap::new(), subscripts: Vec::new(), description: None, substituted_value: None', 1)],
+                loops=[dict(kind='for', it='it_1', pat='(i, (t, lower, upper))', rebind='(__e.0, (&__e.1.0, __e.1.1, __e.1.2))', body_proof=' proof { assert(*__e == __h1[it_1.index@ as int]); }',
+                            inv='''invariant
+                __h1.len() == min3(qplib.var_types.len() as int, qplib.lower_bounds.len() as int, qplib.upper_bounds.len() as int),
+                forall|j: int| 0 <= j < __h1.len() ==> (#[trigger] __h1[j]).0 == j && __h1[j].1.0 == qplib.var_types[j] && __h1[j].1.1 == qplib.lower_bounds[j] && __h1[j].1.2 == qplib.upper_bounds[j],
+                *var_names == qplib.var_names,
+                dvars.len() == it_1.index@,
+                forall|i: int| 0 <= i < dvars.len() ==> (#[trigger] dvars[i]).id == i as u64
+                    && dvars[i].kind == (match qplib.var_types[i] { VarType::Continuous => 3i32, VarType::Integer => 2i32, VarType::Binary => 1i32 })
+                    && dvars[i].bound is Some && dvars[i].bound->Some_0.lower == qplib.lower_bounds[i] && dvars[i].bound->Some_0.upper == qplib.upper_bounds[i]
+                    && dvars[i].name == (if qplib.var_names@.contains_key(i as usize) { Some(qplib.var_names@[i as usize]) } else { None::<String> })
+                    && dvars[i].substituted_value is None && dvars[i].subscripts.len() == 0 && dvars[i].description is None,''')])
